@@ -41,7 +41,13 @@ impl Outcome {
         let content = line.trim_newlines();
         let text = self.escaping.escaped_expectation(content);
         let escaped = self.escaping.has_unprintable(content);
-        if text.starts_with("$ ") || (first && text.starts_with("> ")) {
+        // (an unterminated line gets ` (no-eol)` appended: the marker alone is
+        // enough then)
+        let unterminated = !line.ends_with(b"\n");
+        if text.starts_with("$ ")
+            || (first && text.starts_with("> "))
+            || (unterminated && (text == "$" || (first && text == ">")))
+        {
             // would be read as (part of) the shell expression
             let remainder = if escaped {
                 text[1..].to_string()
